@@ -173,18 +173,21 @@ def observed_store_class():
             w = self.world
             t0 = w.loop._now
             rec = {'op': op, 'id': id, 't0': t0, 't1': None, 'args': None,
-                   'ok': None, 'tag': self.tag}
+                   'ok': None, 'tag': self.tag, 's0': w.counter('attseq'),
+                   's1': None}
             self.obs['store_ops'].append(rec)
             w.log('ST', self.tag, op, 'start')
             try:
                 r = fn(*args)
             except BaseException as e:
                 rec['t1'] = w.loop._now
+                rec['s1'] = w.counter('attseq')
                 rec['ok'] = False
                 rec['exc'] = type(e).__name__
                 w.log('ST', self.tag, op, 'exc', type(e).__name__)
                 raise
             rec['t1'] = w.loop._now
+            rec['s1'] = w.counter('attseq')
             rec['ok'] = True
             w.log('ST', self.tag, op, 'end')
             return rec, r
@@ -495,11 +498,13 @@ def run(world, scn):
         world.log('ENQ', m['k'], 'returned')
 
     def do_flush(i):
-        rec = {'t0': world.loop._now, 't1': None}
+        rec = {'t0': world.loop._now, 't1': None,
+               's0': world.counter('attseq'), 's1': None}
         obs['flushes'].append(rec)
         world.log('FLUSH', i, 'call')
         q.flush()
         rec['t1'] = world.loop._now
+        rec['s1'] = world.counter('attseq')
         world.log('FLUSH', i, 'returned')
 
     drivers = []
